@@ -406,7 +406,17 @@ def explore(ctx):
             continue             # exact rational evaluation of the oracle grows exponentially with the size: keep formulas readable
         trees.append((t, fmin, render(t, 'full'), render(t, 'rand', rng)))
         shapes[d] = shapes.get(d, 0) + 1
-    fixed = ['1+2*3', '(1+2)*3', '2*3+1', '8/4/2', '8/(4/2)', '8-4-2', '8-(4-2)', '-2*3', '-(2*3)', '2*-3', '2--3', '2/-3/4', '2/-3*4',
+    # deep trees: left-leaning chains of n operators (fully parenthesised: n levels of nesting) - "of any shape and depth"
+    for n in (10, 40, 63, 64, 65, 66, 100, 150):
+        for ops in ('+-', '*/', '+-*/'):
+            t = ('num', str(PRIMES[0]), Fraction(PRIMES[0]))
+            for i in range(n):
+                p_ = PRIMES[(i * 7 + n) % len(PRIMES)]
+                t = ('bin', ops[(i * 5 + n) % len(ops)], t, ('num', str(p_), Fraction(p_)))
+            if ops == '+-' or n <= 66:
+                trees.append((t, render(t, 'min'), render(t, 'full'), render(t, 'rand', rng)))
+    fixed = ['(' * k + '1+2' + ')' * k + '*3' for k in (1, 10, 63, 64, 65, 66, 100, 300)] + ['-' + '(' * k + '7' + ')' * k for k in (64, 65, 200)]
+    fixed += ['1+2*3', '(1+2)*3', '2*3+1', '8/4/2', '8/(4/2)', '8-4-2', '8-(4-2)', '-2*3', '-(2*3)', '2*-3', '2--3', '2/-3/4', '2/-3*4',
              '1+2<3+4', '1<2=TRUE', '(1<2)', '(1<2)*5', '1&2&3', '1&2=12', '-1&2', '(1+2)&3', '2*3&4', '1+2&3', '--2', '-(-2)', '((1))',
              '(((1+2)))*(3)', '1-2+3', '1/2*4', '12/-alpha/2', '10/-A1*5']
     cases = [tol_case(f, tr[0]) for tr in trees for f in tr[1:]] + [case_of(f) for f in fixed]
